@@ -15,16 +15,25 @@ from gherkin.token_formatter_builder import TokenFormatterBuilder
 
 
 class StringScanner(TokenScanner):
-    """TokenScanner over a text that is *never* looked up in the file system.
+    """TokenScanner over a source *text*.
 
-    TokenScanner(str) opens the string as a file when a file of that name exists (finding D1); checks whose
-    subject is not that decision use this subclass so that a source text such as '.' is still a source text.
-    Only the constructor differs; read() is the library's."""
+    TokenScanner(str) opens the string as a file when a file of that name exists (finding D1, decided by C01).  Every other
+    check wants "this text", so: if the text does not name an existing path the library's own constructor is used unchanged
+    (nothing here depends on TokenScanner's internals); only for the handful of texts that do name a path ('.', '/', ...)
+    the constructor is bypassed and the text is served through an in-memory stream."""
 
     def __init__(self, text):
-        import io
-        self.io = io.StringIO(text)
-        self.line_number = 0
+        import os
+        try:
+            exists = os.path.exists(text)
+        except (ValueError, TypeError):
+            exists = False
+        if not exists:
+            super().__init__(text)
+        else:
+            import io
+            self.io = io.StringIO(text)
+            self.line_number = 0
 
 
 def err_tuple(e):
@@ -80,6 +89,36 @@ def parse(text, stop=False, default='en', acc=None, id_generator=None, raw_scann
         raise
     except Exception as e:  # noqa: BLE001
         return ('exc', '%s: %s' % (type(e).__name__, e))
+
+
+_REUSED = {}
+
+
+def parse_reused(text, default='en', stop=False):
+    """Same as parse(), but with ONE long-lived Parser + TokenMatcher per process and dialect (only the id generator is
+    fresh, so that ids are comparable): what a caller sees who keeps its parser and matcher for many files."""
+    key = (default, stop)
+    if key not in _REUSED:
+        _REUSED[key] = (Parser(AstBuilder(IdGenerator())), TokenMatcher(default))
+    p, m = _REUSED[key]
+    p.stop_at_first_error = stop
+    p.ast_builder.id_generator = IdGenerator()
+    try:
+        return ('ok', p.parse(StringScanner(text), m))
+    except CompositeParserException as e:
+        return ('errors', [err_tuple(x) for x in e.errors])
+    except ParserException as e:
+        return ('error1', [err_tuple(e)])
+    except RecursionError:
+        raise
+    except Exception as e:  # noqa: BLE001
+        return ('exc', '%s: %s' % (type(e).__name__, e))
+
+
+def parse_routes(text, default='en', acc=None):
+    """[(route name, result)]: fresh instances, then instances that have parsed other documents before."""
+    return [('fresh parser', parse(text, default=default, acc=acc)),
+            ('parser and matcher that parsed other documents before', parse_reused(text, default))]
 
 
 def full(text, stop=False, default='en', acc=None, uri='u'):
